@@ -1,7 +1,7 @@
 """C01 -- every symbol decodes back to exactly the content."""
 import enc, gen, sweep, encprop
 
-TOP = ['theories/Props/C01.v', 'theories/Tie/TieTables.v', 'theories/Tie/TieVersion.v', 'theories/Tie/TiePad.v', 'theories/Tie/TieFit.v', 'theories/Tie/TieFnPat.v', 'theories/Tie/TieEcc.v', 'theories/Tie/TiePlace.v', 'theories/Tie/TieSeg.v', 'theories/Tie/TieEncode.v', 'theories/Tie/TieEncodeFull.v', 'theories/Tie/TieMode.v', 'theories/Tie/TieSegMake.v', 'theories/Tie/TieEncodeFinal.v', 'theories/Tie/TieChain.v']
+TOP = ['theories/Props/C01.v', 'theories/Tie/TieTables.v', 'theories/Tie/TieVersion.v', 'theories/Tie/TiePad.v', 'theories/Tie/TieFit.v', 'theories/Tie/TieFnPat.v', 'theories/Tie/TieEcc.v', 'theories/Tie/TiePlace.v', 'theories/Tie/TieSeg.v', 'theories/Tie/TieEncode.v', 'theories/Tie/TieEncodeFull.v', 'theories/Tie/TieMode.v', 'theories/Tie/TieSegMake.v', 'theories/Tie/TieEncodeFinal.v', 'theories/Tie/TieChain.v', 'theories/Tie/TieSegments.v', 'theories/Tie/TieEncodeTop.v']
 WANT = ('decode',)
 RULE = ('class-stratified random contents (digits, 45-char alphabet, Shift JIS lead/trail classes, latin-1, BMP, hanzi, ints, '
         'multi-part) x random options, plus both sides of capacity boundaries; each implementation symbol is read by the '
